@@ -9,6 +9,8 @@ DEVS = ["ImportNameBeforeOid", "DefaultKindNotChecked"]
 TEMPLATES = {
     "intRange": ("T ::= INTEGER ({lb}..{ub})", {"lb": 3, "ub": 200}),
     "intRangeExt": ("T ::= INTEGER (-5..{ub},...)", {"ub": 7}),
+    "intRangeMin": ("T ::= INTEGER ({lb}..0)", {"lb": -9223372036854775808}),
+    "intRangeMax": ("T ::= INTEGER (1..{ub})", {"ub": 9223372036854775807}),
     "octSize": ("T ::= OCTET STRING (SIZE({lb}..{ub}))", {"lb": 2, "ub": 9}),
     "ia5Fixed": ("T ::= IA5String (SIZE({n}))", {"n": 4}),
     "seqOfSizeExt": ("T ::= SEQUENCE (SIZE({lb}..{ub},...)) OF BOOLEAN", {"lb": 1, "ub": 3}),
@@ -50,7 +52,7 @@ def other(v):
         return not v
     if isinstance(v, str):
         return "zz"
-    return v + 1
+    return v + 1 if v < 9223372036854775807 else v - 1
 
 
 def build(case):
@@ -99,6 +101,78 @@ def main_defs(rows):
         if m.get("name") == "Main":
             return [x for x in m["defs"] if x["name"] == "T"]
     return None
+
+
+# the files of Converter.tla (Good / bad / missing)
+CONVERTER_FILES = {
+    "main": """Main DEFINITIONS AUTOMATIC TAGS ::= BEGIN
+IMPORTS limit, Shared FROM Lib;
+T ::= SEQUENCE { a INTEGER (0..limit), b Shared OPTIONAL, c SEQUENCE (SIZE(1..limit)) OF BOOLEAN }
+U ::= CHOICE { x T, y Shared }
+END
+""",
+    "lib": """Lib DEFINITIONS AUTOMATIC TAGS ::= BEGIN
+limit INTEGER ::= 12
+Shared ::= SEQUENCE { n INTEGER (0..255), s UTF8String }
+Other ::= ENUMERATED { red, green, ..., blue }
+END
+""",
+    "solo": """Solo-Two DEFINITIONS AUTOMATIC TAGS ::= BEGIN
+top INTEGER ::= 7
+S ::= SEQUENCE { v INTEGER (0..top) DEFAULT 3, w BIT STRING (SIZE(4)) }
+END
+""",
+    "orphan": """Orphan DEFINITIONS AUTOMATIC TAGS ::= BEGIN
+IMPORTS bound FROM Ghost;
+O ::= INTEGER (0..bound)
+END
+""",
+    "bad": """Bad DEFINITIONS AUTOMATIC TAGS ::= BEGIN
+B ::= SEQUENCE { a INTEGER (0..7), , b BOOLEAN
+END
+""",
+}
+
+
+def converter_machine(v, d):
+    """Converter.tla: every history of D loads / generates on the real asn1rs::converter::Converter."""
+    import shutil
+    D = 5 if v.tier == "quick" else 6
+    vec = os.path.join(d, "converter.ndjson")
+    t = run_tlc("C12", "Converter", "SPECIFICATION Spec\nCONSTANTS\n  D = %d\nINVARIANTS Atomic SetDetermined Emit\nCHECK_DEADLOCK FALSE\n" % D,
+                replay_to=vec, coverage=False, heap="4g", timeout=3600)
+    if t.violation:
+        raise ToolError("Converter.tla: " + t.violation)
+    v.add_tlc("Converter", t)
+    if not t.nreplay:
+        raise ToolError("Converter.tla printed no history")
+    fdir = os.path.join(d, "converter_files")
+    work = os.path.join(d, "converter_work")
+    shutil.rmtree(work, ignore_errors=True)
+    os.makedirs(fdir, exist_ok=True)
+    files = {}
+    for k, text in CONVERTER_FILES.items():
+        files[k] = os.path.join(fdir, k + ".asn1")
+        open(files[k], "w").write(text)
+    files["missing"] = os.path.join(fdir, "no-such-file.asn1")
+    if os.path.exists(files["missing"]):
+        os.remove(files["missing"])
+    spec = os.path.join(d, "converter.json")
+    json.dump({"files": files, "cases": vec, "work": work}, open(spec, "w"))
+    res = os.path.join(d, "converter.res")
+    p = vlib.run_bin("replay", ["converter", spec, res])
+    shutil.rmtree(work, ignore_errors=True)
+    if p.returncode != 0:
+        raise ToolError("replay converter failed: " + p.stderr[-1000:])
+    rows = vlib.read_ndjson(res)
+    summ = rows[-1]
+    if not summ.get("summary") or summ["cases"] != t.nreplay:
+        raise ToolError("converter replay incomplete")
+    for i, r in enumerate(rows[:-1]):
+        v.violation("Converter: %s" % r["why"][:300], {"history": r["case"], "why": r["why"], "files": CONVERTER_FILES}, "converter_%03d.json" % i)
+    v.cov["converter_histories"] = summ["cases"]
+    v.cov["converter_generates"] = summ["generates"]
+    return summ["cases"]
 
 
 def run(v):
@@ -162,8 +236,9 @@ def run(v):
         if f is None:
             raise ToolError("deviation class %s is not an open finding" % dname)
         v.known(f["id"], "%s: %s (%d cases of this run inside the class)" % (f["id"], f["what"], cnt))
-    v.cov["traces_validated_against_impl"] += len(cases)
-    v.cov["evaluations"] += len(cases)
+    nconv = converter_machine(v, d)
+    v.cov["traces_validated_against_impl"] += len(cases) + nconv
+    v.cov["evaluations"] += len(cases) + nconv
     v.cov["distinct_nontrivial"] = nontriv
     v.cov["exhaustive"] = True
     v.cov["rule"] = ("Refs.tla: 8 base definitions with literal slots (INTEGER range bounds incl. extensible, SIZE bounds of OCTET/BIT/IA5 strings and "
@@ -172,9 +247,12 @@ def run(v):
                      "sibling by OID next to a module whose OID is a strict prefix / extension of it} "
                      "x EVERY load order, plus negative variants (reference missing, bound to a BOOLEAN, negative number as SIZE) per slot: %d "
                      "cases (one TLC state each). Expected: canonical model of the main module identical to the literal spelling, or a resolve "
-                     "error for the negatives. Non-trivial = cases with at least one reference." % len(cases))
+                     "error for the negatives. Non-trivial = cases with at least one reference. Converter.tla: every history of %d steps "
+                     "(load of a good / importing / unresolvable / malformed / missing file, generate) on the real file-level Converter: result "
+                     "classes as specified, a failed step changes nothing, and what to_rust / to_protobuf write depends only on the SET of "
+                     "loaded files (compared with a fresh converter): %d histories." % (len(cases), 5 if v.tier == "quick" else 6, nconv))
     v.cov["samples"] = [{"case": c, "main_module": build(c)["Main"]} for c in cases[5::max(1, len(cases) // 4)][:4]]
-    v.cov["checker_cmd"] = "tlc Refs; harness frontend canon on generated module sets in every load order"
+    v.cov["checker_cmd"] = "tlc Refs; tlc Converter + replay converter; harness frontend canon on generated module sets in every load order"
     v.assumptions += ["the literal spelling's model is the reference (metamorphic relation stated by the property)"]
 
 
